@@ -1265,7 +1265,7 @@ def run_app_script(binary, lines, kinds, go_timeout=60):
         pass
     # quit / panic end the process; otherwise it keeps reading (and spins on the empty read at end of input: Model/App `atEof`)
     try:
-        rc = p.wait(timeout=5 if (dead or 'quit' in kinds or 'setoption' in kinds) else 0.3)
+        rc = p.wait(timeout=30 if (dead or 'quit' in kinds or 'setoption' in kinds) else 0.3)
     except subprocess.TimeoutExpired:
         rc = None
         p.kill()
@@ -1334,9 +1334,19 @@ def app_sessions(ctx, n):
         return 'register' if k == 'register' else k
     vs = []
     nlines = 0
+    transient = []
     for sc, req, m in zip(scripts, reqs, model):
         kinds = [kind_of(next(parsed)) for _ in sc]
         r = run_app_script(binary, sc, kinds)
+        retries = 0
+        while r != m and retries < 2:
+            # the real process is driven over pipes in real time: a disagreement must be reproducible to count
+            retries += 1
+            time.sleep(0.5)
+            r2 = run_app_script(binary, sc, kinds)
+            if r2 != r:
+                transient.append((sc, r, r2))
+            r = r2
         lines = r.split(' | ')
         nlines += len(lines)
         bad = [l for l in lines[1:-1] if not UCI_OUT.match(l.replace('info poll', 'info nodes 1'))]
@@ -1347,6 +1357,8 @@ def app_sessions(ctx, n):
             vs.append({'kind': 'correspondence', 'stream': 'engine-process', 'op': 'app', 'input': req, 'impl_output': r[:900], 'model_output': m[:900],
                        'why': 'process model (Model/App.lean) and the real engine_app binary disagree on the projected stdout stream of a sequential script: ' + ' / '.join(sc)[:300]})
     ctx.notes.append('real engine_app process vs process model: %d scripts, %d stdout lines compared' % (len(scripts), nlines))
+    if transient:
+        ctx.notes.append('runs of the real process that differed from their own repetition (pipe timing; not counted): %d, e.g. %r vs %r' % (len(transient), transient[0][1][-120:], transient[0][2][-120:]))
     return vs
 
 
